@@ -1122,3 +1122,17 @@ M('c16-has-object-own-fast-path', 'C16', "        return self.has_objects([hashk
 M('c04-has-object-own-fast-path', 'C04', "        return self.has_objects([hashkey])[0]", "        if self._get_loose_path_from_hashkey(hashkey).exists():\n            return True\n        return self._get_operation_session().execute(select(Obj.id).where(Obj.hashkey == hashkey).limit(1)).first() is not None", 'C04.Pr0')
 M('c05-repack-update-inside-copy-loop', 'C05', "                    obj_dicts.append(obj_dict)\n                    if callback:\n                        callback('update', obj_dict['size'])", "                    obj_dicts.append(obj_dict)\n                    if len(obj_dicts) >= 1000:\n                        session.bulk_update_mappings(Obj, obj_dicts)\n                        obj_dicts = []\n                    if callback:\n                        callback('update', obj_dict['size'])", 'C05.R4')
 M('c12-validator-limited-read', 'C12', "computed_hash, computed_size = compute_hash_and_size(obj_reader, self.hash_type)", "computed_hash, computed_size = compute_hash_and_size(obj_reader, self.hash_type, size)", 'C12.R2')
+
+# ------------------------------------------------------------------------------------------------ rules added in seeding round 4 (one-edit versions of the seeds)
+M('c04-unguarded-stat-after-open', 'C04', "    def close_stream(self) -> None:\n        \"\"\"Close the underlying stream (if open).\"\"\"", "        self._loose_size = loose_path.stat().st_size\n\n    def close_stream(self) -> None:\n        \"\"\"Close the underlying stream (if open).\"\"\"", 'C04.Pt', U)
+M('c01-add-object-own-fast-path', 'C01', "        stream = io.BytesIO(content)\n        return self.add_streamed_object(stream)", "        hashkey = get_hash_cls(self.hash_type)(content).hexdigest()\n        try:\n            if self._get_loose_path_from_hashkey(hashkey).stat().st_size == len(content):\n                return hashkey\n        except FileNotFoundError:\n            pass\n        stream = io.BytesIO(content)\n        return self.add_streamed_object(stream)", 'C01.R2')
+M('c09-add-object-own-fast-path', 'C09', "        stream = io.BytesIO(content)\n        return self.add_streamed_object(stream)", "        hashkey = get_hash_cls(self.hash_type)(content).hexdigest()\n        try:\n            if self._get_loose_path_from_hashkey(hashkey).stat().st_size == len(content):\n                return hashkey\n        except FileNotFoundError:\n            pass\n        stream = io.BytesIO(content)\n        return self.add_streamed_object(stream)", 'C09.R1')
+M('c01-funnel-rolls-back', 'C01', "        for pack_int_id, pack_metadata in packs.items():\n            pack_metadata.sort(key=lambda metadata: metadata.offset)", "        session.rollback()\n        for pack_int_id, pack_metadata in packs.items():\n            pack_metadata.sort(key=lambda metadata: metadata.offset)", 'C01.R4')
+M('c02-funnel-rolls-back', 'C02', "        for pack_int_id, pack_metadata in packs.items():\n            pack_metadata.sort(key=lambda metadata: metadata.offset)", "        session.rollback()\n        for pack_int_id, pack_metadata in packs.items():\n            pack_metadata.sort(key=lambda metadata: metadata.offset)", 'C02.R4')
+M('c02-total-size-resets-session', 'C02', "        retval = {}\n\n        session = self._get_operation_session()\n        # COALESCE", "        retval = {}\n\n        self._close_operation_session()\n        session = self._get_operation_session()\n        # COALESCE", 'C02.R7')
+M('c03-cached-property-hash-type', 'C03', "    @property\n    def hash_type(self) -> str:", "    @functools.cached_property\n    def hash_type(self) -> str:", 'C03.R3')
+M('c01-cached-property-hash-type', 'C01', "    @property\n    def hash_type(self) -> str:", "    @functools.cached_property\n    def hash_type(self) -> str:", 'C01.R3')
+M('c05-pack-selector-ignores-known-size', 'C05', "            if known_sizes and pack_id in known_sizes:\n                size = known_sizes[pack_id]\n            else:\n                size = pack_path.stat().st_size", "            size = pack_path.stat().st_size", 'C05+C13.R2s')
+M('c16-has-objects-dedups-request', 'C16', "        existing_hashkeys = set()\n", "        existing_hashkeys = set()\n        hashkeys = list(dict.fromkeys(hashkeys))\n", 'C16.R2')
+M('c16-has-objects-filters-answers', 'C16', "        return [hashkey in existing_hashkeys for hashkey in hashkeys]", "        return [hashkey in existing_hashkeys for hashkey in hashkeys if hashkey]", 'C16.R2')
+M('c09-verifier-falls-through-on-missing', 'C09', "    except FileNotFoundError:\n        return None\n\n    return hasher.hexdigest()", "    except FileNotFoundError:\n        pass\n\n    return hasher.hexdigest()", 'C09.R1', U)
